@@ -15,7 +15,9 @@ From Verif Require Import Lib.Base Model.C02_Scheduler Model.C02_Script.
 Inductive top :=
 | TSched (n : name) (periodic : bool)   (* ScheduleJob / SchedulePeriodicJob *)
 | TRun (n : name)                       (* RunJob *)
+| TRunIf (n : name)                     (* RunJobIfExists: the same table section, no result *)
 | TCancel (n : name)                    (* CancelJob *)
+| TCancelIf (n : name)                  (* CancelJobIfExists: CancelJob with its result dropped *)
 | TExists (n : name)                    (* JobExists *)
 | TList                                 (* ListJobs *)
 | TCancelAll.                           (* CancelJobs with a prefix that every name has *)
@@ -23,7 +25,9 @@ Inductive top :=
 Inductive tout :=
 | TCode (c : code)
 | TBool (b : bool)
-| TNames (l : list name).               (* sorted *)
+| TNames (l : list name)                (* sorted *)
+| TSilent                               (* RunJobIfExists / CancelJobIfExists return nothing *)
+| TOther.                               (* observed side only: an error that is none of the scheduler's *)
 
 Record tabst := {
   tb_table : table;                 (* name -> job id *)
@@ -64,6 +68,18 @@ Definition tb_step (s : tabst) (o : top) : tabst * tout :=
           let '(t', _) := t_run (tb_table s) n (is_periodic s j) in
           ({| tb_table := t'; tb_per := tb_per s; tb_next := tb_next s; tb_runs := bump (tb_runs s) j |}, TCode Nil)
       | None => (s, TCode ErrNoSuchJob)
+      end
+  | TRunIf n =>
+      match t_get (tb_table s) n with
+      | Some j =>
+          let '(t', _) := t_run (tb_table s) n (is_periodic s j) in
+          ({| tb_table := t'; tb_per := tb_per s; tb_next := tb_next s; tb_runs := bump (tb_runs s) j |}, TSilent)
+      | None => (s, TSilent)
+      end
+  | TCancelIf n =>
+      match t_cancel (tb_table s) n with
+      | (t', Some _) => ({| tb_table := t'; tb_per := tb_per s; tb_next := tb_next s; tb_runs := tb_runs s |}, TSilent)
+      | (_, None) => (s, TSilent)
       end
   | TCancel n =>
       match t_cancel (tb_table s) n with
